@@ -44,6 +44,7 @@ theorem layout_lengths (rows ns w : Nat) (hr : 1 ≤ rows) (hw : 1 ≤ w) :
     (Gen.C07.ymins rows ns w).length = stripes rows ns w ∧
     (Gen.C07.ymaxs rows ns w).length = stripes rows ns w := by
   unfold Gen.C07.ymins Gen.C07.ymaxs stripes
+  try unfold Aegean.Model.C07.yminsHand Aegean.Model.C07.ymaxsHand
   by_cases h : ns > 1
   · have hw0 : ¬ (w = 0) := by omega
     simp only [h, if_true, Py.range, hw0, if_false, List.length_map, List.length_range, List.length_append,
@@ -71,6 +72,7 @@ theorem ymins_get (rows ns w : Nat) (_hr : 1 ≤ rows) (hw : 1 ≤ w) (i : Nat) 
     (Gen.C07.ymins rows ns w)[i]? = some (cut rows ns w i) := by
   unfold cut; rw [if_pos hi]
   unfold Gen.C07.ymins
+  try unfold Aegean.Model.C07.yminsHand
   unfold stripes at hi
   by_cases h : ns > 1
   · have hw0 : ¬ (w = 0) := by omega
@@ -84,6 +86,7 @@ theorem ymins_get (rows ns w : Nat) (_hr : 1 ≤ rows) (hw : 1 ≤ w) (i : Nat) 
 theorem ymaxs_get (rows ns w : Nat) (hr : 1 ≤ rows) (hw : 1 ≤ w) (i : Nat) (hi : i < stripes rows ns w) :
     (Gen.C07.ymaxs rows ns w)[i]? = some (cut rows ns w (i + 1)) := by
   unfold cut Gen.C07.ymaxs
+  try unfold Aegean.Model.C07.ymaxsHand
   unfold stripes at hi ⊢
   by_cases h : ns > 1
   · have hw0 : ¬ (w = 0) := by omega
